@@ -20,13 +20,15 @@ THEOREMS = [
     "GoaktVerif.C31.C31_refuted",
     "GoaktVerif.C31.C31_activate_first",
     "GoaktVerif.C31.C31_inturn",
+    "GoaktVerif.C31.ginv_step",
+    "GoaktVerif.C31.C31_partial",
     "GoaktVerif.C31.C31_send_after_deactivation",
 ]
 INPKG = ["actor/zz_verif_c06.go"]
 HARNESS = "c06"
 TIMEOUT = 1500
 MANIFEST = {
-    "level_text": "Kernel-checked theorems over a small-step model of one grain process (actor/grain_pid.go activate, deactivate, receive, runTurn/dispatchOne, handlePoisonPill, handlePassivationPill, passivationTry; actor/grain_engine.go ensureGrainProcess) for ANY pool of senders, PoisonPill senders (user or system shutdown) and passivation attempts and ANY schedule: the full property is refuted with machine-checked witnesses (C31_refuted; C31_overlap_direct_passivation, C31_receive_after_deactivate, C31_double_deactivate); OnActivate completes before every OnReceive on all schedules (C31_activate_first); when every deactivation runs inside the turn (reentrancy-capable grain or no passivation attempt) OnDeactivate starts at most once and never overlaps OnReceive on all schedules (C31_inturn); once deactivate has removed the process from the grain map every later send leaves for a fresh process and the removal is permanent (C31_send_after_deactivation). Witnesses are replayed deterministically on the real system and the spec monitor judges every grain instance's hook history.",
+    "level_text": "Kernel-checked theorems over a small-step model of one grain process (actor/grain_pid.go activate, deactivate, receive, runTurn/dispatchOne, handlePoisonPill, handlePassivationPill, passivationTry; actor/grain_engine.go ensureGrainProcess) for ANY pool of senders, PoisonPill senders (user or system shutdown) and passivation attempts and ANY schedule: the full property is refuted with machine-checked witnesses (C31_refuted; C31_overlap_direct_passivation, C31_receive_after_deactivate, C31_double_deactivate); OnActivate completes before every OnReceive on all schedules (C31_activate_first); when every deactivation runs inside the turn (reentrancy-capable grain or no passivation attempt) OnDeactivate starts at most once and never overlaps OnReceive on all schedules (C31_inturn); all four clauses hold on every schedule in which sends are not concurrent with a deactivation and the manager's direct deactivation only starts on an idle grain with an empty mailbox (C31_partial, inductive invariant ginv_step); once deactivate has removed the process from the grain map every later send leaves for a fresh process and the removal is permanent (C31_send_after_deactivation). Witnesses are replayed deterministically on the real system and the spec monitor judges every grain instance's hook history.",
     "level_note": "Partial: false of the current code (findings C31-F1, C31-F2). `exactly once` is proved as `at most once` (that every active grain IS deactivated at system stop is C17's). The dispatch turn is abstract (C01/C02 assumed); the response queue / StashNonReentrant pause, timers, failing OnActivate/OnDeactivate and re-activation of the same process are not modelled. Sends in the scenario harness use the Tell half of localSend split at the hand-over point (in-package copy of the same calls) so that 'enqueued' is observable; the real TellGrain is exercised by the `T`/`PILL` actions and by C17. Tie at gate granularity; racy scripts are judged by the monitor only.",
     "technique": "Lean 4 inductive invariants over an interleaving model + deterministic gated-scenario differential against the real actor system + spec monitor on recorded hook histories",
 }
